@@ -30,6 +30,10 @@ structure VStack where
   cur : Nat := 0
   glob : Nat := 4294967295
   marked : Bool := false
+  /-- which `findEntry` the tree has: `true` = a parameter lookup activates the passed entry in place
+  (the code before the repair of finding F4), `false` = lookups leave the stack alone and `xsl:param`
+  binds the value it found in its own frame.  Selected by the check with a probe on the real class. -/
+  activating : Bool := true
 deriving DecidableEq, Repr, Inhabited
 
 namespace VStack
@@ -86,19 +90,19 @@ def pushParams (s : VStack) (ps : List (Nat × Nat)) : VStack :=
 
 /-- the first loop of `findEntry` on the entries from the start index downwards (index 0 excluded by
 the caller): value and the list with the matched inactive parameter activated -/
-def findLocal (n : Nat) (isParam : Bool) : List Entry → Option (Nat × List Entry)
+def findLocal (n : Nat) (isParam : Bool) (act : Bool := true) : List Entry → Option (Nat × List Entry)
   | [] => none
   | .ctxMarker :: _ => none
   | .var m v :: r =>
     if m = n then some (v, .var m v :: r)
-    else (findLocal n isParam r).map fun x => (x.1, .var m v :: x.2)
+    else (findLocal n isParam act r).map fun x => (x.1, .var m v :: x.2)
   | .activeParam m v :: r =>
     if m = n then some (v, .activeParam m v :: r)
-    else (findLocal n isParam r).map fun x => (x.1, .activeParam m v :: x.2)
+    else (findLocal n isParam act r).map fun x => (x.1, .activeParam m v :: x.2)
   | .param m v :: r =>
-    if isParam && m = n then some (v, .activeParam m v :: r)
-    else (findLocal n isParam r).map fun x => (x.1, .param m v :: x.2)
-  | .elemFrame e :: r => (findLocal n isParam r).map fun x => (x.1, .elemFrame e :: x.2)
+    if isParam && m = n then some (v, (if act then .activeParam m v else .param m v) :: r)
+    else (findLocal n isParam act r).map fun x => (x.1, .param m v :: x.2)
+  | .elemFrame e :: r => (findLocal n isParam act r).map fun x => (x.1, .elemFrame e :: x.2)
 
 /-- the second loop (global space): variables only, stops at a context marker -/
 def findGlobal (n : Nat) : List Entry → Option Nat
@@ -115,7 +119,7 @@ def findEntry (s : VStack) (n : Nat) (isParam searchGlobal : Bool) : Option (Opt
   let above := s.stack.take (len - s.cur)
   let part := (s.stack.drop (len - s.cur)).dropLast
   let bottom := (s.stack.drop (len - s.cur)).drop part.length
-  match findLocal n isParam part with
+  match findLocal n isParam s.activating part with
   | some (v, part') => some (some v, { s with stack := above ++ part' ++ bottom })
   | none =>
     if !isParam && searchGlobal && s.glob > 1 then
@@ -149,6 +153,14 @@ def LexEnv.lookup (env : LexEnv) (n : Nat) : Option Nat :=
   match env.locals.lookup n with
   | some v => some v
   | none => env.globals.lookup n
+
+/-- what a parameter lookup (`xsl:param`) sees in a frame segment: variables, claimed and passed parameters -/
+def frameParamBindings : List Entry → List (Nat × Nat)
+  | [] => []
+  | .var n v :: r => (n, v) :: frameParamBindings r
+  | .activeParam n v :: r => (n, v) :: frameParamBindings r
+  | .param n v :: r => (n, v) :: frameParamBindings r
+  | _ :: r => frameParamBindings r
 
 /-- bindings a frame segment contributes (variables and *claimed* parameters) -/
 def frameBindings : List Entry → List (Nat × Nat)
